@@ -23,6 +23,9 @@ type batchModel struct {
 	Ops     []batchOp
 	Commits []ssa.CallInstruction
 	Ord     int // ordinal of the batch in its function
+	// BuiltFor: the batch is built by Fn and returned; this is the call of Fn (in the function that goes on to use
+	// and commit the batch) the model belongs to. nil for a batch that is begun and committed in one function.
+	BuiltFor ssa.CallInstruction
 }
 
 func (p *Prog) batches() []*batchModel {
@@ -68,6 +71,51 @@ func (p *Prog) batches() []*batchModel {
 					bm.Commits = append(bm.Commits, oc)
 				}
 			}
+			// a builder returns the batch it has filled: the operations continue on the result of each of its calls
+			returned := false
+			for _, ref := range *bc.Referrers() {
+				if _, ok := ref.(*ssa.Return); ok && f.Signature.Results().Len() == 1 {
+					returned = true
+				}
+			}
+			if returned && len(bm.Commits) == 0 {
+				p.buildCallersLite()
+				var sites []*ssa.Call
+				for _, cs := range p.staticCallers[f] {
+					if cc, ok := cs.(*ssa.Call); ok {
+						sites = append(sites, cc)
+					}
+				}
+				if len(sites) > 0 && len(sites) == len(p.staticCallers[f]) && !p.addressTaken(f) {
+					for _, site := range sites {
+						m2 := &batchModel{Fn: f, Begin: bc, Ord: ord, BuiltFor: site}
+						m2.Ops = append(m2.Ops, bm.Ops...)
+						for _, ref := range *site.Referrers() {
+							oc, ok := ref.(ssa.CallInstruction)
+							if !ok || !oc.Common().IsInvoke() || oc.Common().Value != ssa.Value(site) {
+								continue
+							}
+							cc := oc.Common()
+							switch cc.Method {
+							case r.BWPut:
+								m2.Ops = append(m2.Ops, batchOp{Kind: "Put", Call: oc, Key: cc.Args[0], Val: cc.Args[1], TTL: cc.Args[2]})
+							case r.BWCAS:
+								m2.Ops = append(m2.Ops, batchOp{Kind: "CAS", Call: oc, Key: cc.Args[0], Val: cc.Args[1], Old: cc.Args[2], TTL: cc.Args[3]})
+							case r.BWPutIfNotExist:
+								m2.Ops = append(m2.Ops, batchOp{Kind: "PutIfNotExist", Call: oc, Key: cc.Args[0], Val: cc.Args[1], TTL: cc.Args[2]})
+							case r.BWDel:
+								m2.Ops = append(m2.Ops, batchOp{Kind: "Del", Call: oc, Key: cc.Args[0]})
+							case r.BWDelCurrent:
+								m2.Ops = append(m2.Ops, batchOp{Kind: "DelCurrent", Call: oc})
+							case r.BWCommit:
+								m2.Commits = append(m2.Commits, oc)
+							}
+						}
+						out = append(out, m2)
+					}
+					continue
+				}
+			}
 			out = append(out, bm)
 		}
 	}
@@ -82,7 +130,25 @@ func (b *batchModel) name() string {
 // escapes reports whether the batch value is used other than as the receiver of BatchWrite methods
 // (returned, stored, passed on): such a batch cannot be modelled locally.
 func (b *batchModel) escapes() bool {
+	if b.BuiltFor != nil {
+		// the result of the builder's call must itself be used as the receiver of BatchWrite methods only
+		for _, ref := range *b.BuiltFor.(*ssa.Call).Referrers() {
+			switch x := ref.(type) {
+			case ssa.CallInstruction:
+				if x.Common().IsInvoke() && x.Common().Value == b.BuiltFor.(*ssa.Call) {
+					continue
+				}
+				return true
+			case *ssa.DebugRef:
+			default:
+				return true
+			}
+		}
+	}
 	for _, ref := range *b.Begin.Referrers() {
+		if _, isRet := ref.(*ssa.Return); isRet && b.BuiltFor != nil {
+			continue
+		}
 		switch x := ref.(type) {
 		case ssa.CallInstruction:
 			if x.Common().IsInvoke() && x.Common().Value == ssa.Value(b.Begin) {
@@ -116,6 +182,9 @@ func (p *Prog) ctxValue(v ssa.Value, ctx ssa.CallInstruction) ssa.Value {
 // contexts returns the call sites to specialise a helper function on: its static callers when any operand of the
 // batch is a parameter, otherwise a single nil context.
 func (p *Prog) contextsOf(b *batchModel) []ssa.CallInstruction {
+	if b.BuiltFor != nil {
+		return []ssa.CallInstruction{b.BuiltFor}
+	}
 	usesParam := false
 	for _, op := range b.Ops {
 		for _, v := range []ssa.Value{op.Key, op.Val, op.Old} {
